@@ -24,6 +24,11 @@ static long doop(OggVorbis_File *vf,const char *tk,float ***pp,int *bs){
   if(!strncmp(tk,"rs:",3))return ov_raw_seek(vf,atol(tk+3));
   if(!strncmp(tk,"ts:",3))return ov_time_seek(vf,atof(tk+3));
   if(!strncmp(tk,"pl:",3))return ov_pcm_seek_lap(vf,atol(tk+3));
+  if(!strncmp(tk,"ql:",3))return ov_pcm_seek_page_lap(vf,atol(tk+3));
+  if(!strncmp(tk,"rl:",3))return ov_raw_seek_lap(vf,atol(tk+3));
+  if(!strncmp(tk,"tl:",3))return ov_time_seek_lap(vf,atof(tk+3));
+  if(!strncmp(tk,"tq:",3))return ov_time_seek_page_lap(vf,atof(tk+3));
+  if(!strncmp(tk,"tp:",3))return ov_time_seek_page(vf,atof(tk+3));
   if(!strncmp(tk,"rf:",3))return ov_read_float(vf,pp,atoi(tk+3),bs);
   if(!strncmp(tk,"hr:",3))return ov_halfrate(vf,atoi(tk+3));
   return 0;
@@ -69,6 +74,8 @@ int main(int argc,char **argv){
       long rc=doop(&vf,ops[i],&p,&bs);
       if(ms.fault_at&&((persist&&ms.ncalls>=ms.fault_at)||(!persist&&before<ms.fault_at&&ms.ncalls>=ms.fault_at)))struck=1;
       if(!documented(rc)){ printf("prop errcode FAIL op=%s rc=%ld\n",ops[i],rc); bad++; }
+      /* a sample/page/time seek (plain or lapped) that reports success has put the handle somewhere */
+      if(rc==0&&(ops[i][0]=='p'||ops[i][0]=='t'||ops[i][0]=='q')&&ops[i][2]==':'&&ov_pcm_tell(&vf)<0){ printf("prop seekpos FAIL op=%s returned 0 but the position is unknown (%ld)\n",ops[i],(long)ov_pcm_tell(&vf)); bad++; }
       if(ms.closes){ printf("prop noclose FAIL source closed during %s\n",ops[i]); bad++; break; }
     }
     if(struck)faulted_calls++;
